@@ -19,7 +19,11 @@ def text(e):
     if k == "var": return e[1]
     if k == "neg": return f"(-{text(e[1])})"
     if k == "bop": return f"({text(e[2])} {e[1]} {text(e[3])})"
-    if k == "app": return f"({text(e[1])} ({text(e[2])}))"
+    if k == "app":
+        f = text(e[1])
+        # a bare identifier argument is written bare most of the time (`f x`, an Expr::Ident in the tree) and parenthesised otherwise (`f (x)`)
+        if e[2][0] == "var" and sum(map(ord, f)) % 4 != 0: return f"({f} {e[2][1]})"
+        return f"({f} ({text(e[2])}))"
     if k == "lam":
         x, b, style = e[1], text(e[2]), e[3]
         return {0: f"(\\{x}. {b})", 1: f"({x}: {b})", 2: f"({x} => {b})"}[style]
@@ -182,6 +186,48 @@ def run(ctx):
             else:
                 inputs.append(g.num(env, 3))
         progs.append((inputs, pairs))
+    # hand-on programs: nests of lambdas over a deliberately tiny name pool, where parameters are handed on as bare identifiers to inner lambdas
+    # (immediate, stored in a global, or received as an argument) whose own parameters re-use the names that are free in the original argument —
+    # the shapes in which a substitution-style shortcut captures a variable
+    SMALL = ["x", "y", "a"]
+    def arith(names, d):
+        c = r.random()
+        if d <= 0 or c < 0.35:
+            return ("var", r.choice(names)) if names and r.random() < 0.75 else ("num", r.randint(1, 9))
+        return ("bop", r.choice("+-*"), arith(names, d - 1), arith(names, d - 1))
+    def nest(depth, names, fns):
+        if depth <= 0:
+            return arith(names, 1)
+        pnm = r.choice(SMALL)
+        c = r.random()
+        if fns and c < 0.3:
+            lam = ("var", r.choice(fns))
+        else:
+            lam = ("lam", pnm, nest(depth - 1, names + [pnm], fns), r.randrange(3))
+        arg = ("var", r.choice(names)) if names and r.random() < 0.65 else arith(names, 1)
+        e = ("app", lam, arg)
+        if r.random() < 0.25:
+            e = ("bop", r.choice("+*"), e, arith(names, 0))
+        return e
+    for _ in range(500 if quick else 10000):
+        inputs, pairs, gl = [], [], []
+        for nm in r.sample(SMALL, r.randint(1, 3)):
+            inputs.append(("assign", nm, ("num", r.randint(2, 40)))); gl.append(nm)
+        fns = []
+        for fname in ("f", "h"):
+            if r.random() < 0.6:
+                q = r.choice(SMALL)
+                inputs.append(("assign", fname, ("lam", q, nest(r.randint(0, 2), gl + [q], list(fns)), r.randrange(3)))); fns.append(fname)
+        for _ in range(r.randint(2, 4)):
+            q = r.choice(SMALL)
+            body = nest(r.randint(1, 3), gl + [q], fns)
+            arg = arith(gl, r.randint(1, 2))
+            inputs.append(("app", ("lam", q, body, r.randrange(3)), arg)); dist["handon_redexes"] = dist.get("handon_redexes", 0) + 1
+            try:
+                inputs.append(subst(q, arg, body)); pairs.append((len(inputs) - 2, len(inputs) - 1, "beta")); dist["beta_pairs"] += 1
+            except Capture:
+                dist["capture_skipped"] += 1
+        progs.append((inputs, pairs))
     lines = [" ;; ".join(text(e) for e in ins) for ins, _ in progs]
     mlines = [" ;; ".join(" ".join(toks(e)) for e in ins) for ins, _ in progs]
     impl = ctx.run_lines_robust(h, ["evalctx"], lines, env={"HARNESS_LINE_TIMEOUT_S": "30"})
@@ -247,9 +293,10 @@ def run(ctx):
         if ao != mo:
             ctx.model_disagreements.append({"stream": "histories", "input": line, "impl": " ;; ".join(ao), "model": " ;; ".join(mo)})
     ctx.record_stream("programs", "random typed programs in one context: assignments (also of built-in names), lambda definitions in all three notations (curried, higher-order), uses, immediate redexes with their "
-                      "substituted forms and `v = E; USE` with `USE[v := (E)]`; each pair must print alike, and every answer must equal the Lean scope model's; then histories of successes, failures and unit "
+                      "substituted forms and `v = E; USE` with `USE[v := (E)]`; hand-on programs (nests of lambdas over three names in which parameters are passed on as bare identifiers to inner, stored and "
+                      "received lambdas that re-bind the names free in the original argument); each pair must print alike, and every answer must equal the Lean scope model's; then histories of successes, failures and unit "
                       "results with reads of `_` / `ans` replayed against the statement itself", len(lines) + len(hist), len(set(lines)) + len(set(map(tuple, hist))), dist, lines[:2] + [" ;; ".join(hist[0])], time.time() - t0)
-    return ctx.finish(rule="quick 700 programs + 400 histories; thorough 15000 + 8000")
+    return ctx.finish(rule="quick 700 programs + 500 hand-on programs + 400 histories; thorough 15000 + 10000 + 8000")
 
 def replay(ctx, rep):
     print(rep["first"]); return 0
